@@ -197,7 +197,7 @@ def build_group(H, group):
         A.vc_custom_basis(H)
     elif group == 'powers':
         from contracts import powers_c as PW
-        PW.vc_power_supply(H); PW.vc_minimal_chains(H); PW.vc_pow_generic(H); PW.vc_poly_pow(H)
+        PW.vc_power_supply(H); PW.vc_power_supply_consecutive(H); PW.vc_minimal_chains(H); PW.vc_pow_generic(H); PW.vc_poly_pow(H)
     elif group == 'graph':
         from contracts import misc_c as MC
         MC.vc_graph_refresh(H); MC.vc_graph_derived(H); MC.vc_inplacereplace(H)
